@@ -481,6 +481,8 @@ func (vc *VC) backEdge(li *loopInfo, from *ssa.BasicBlock, cond string, h Heap) 
 
 // havocLoop: replace the heap components the loop body may write by fresh ones.
 func (vc *VC) havocLoop(li *loopInfo, h *Heap) {
+	preLoop := h.clone()
+	defer func() { vc.keepPrivateCells(li, h, preLoop) }()
 	type target struct {
 		sort      Sort
 		obj, slot string // loop-invariant object/slot terms, or ""
@@ -494,6 +496,11 @@ func (vc *VC) havocLoop(li *loopInfo, h *Heap) {
 	mapTypes := map[int]bool{}
 	var preciseMaps []string
 	ghostHavoc := map[string]bool{}
+	if vc.loopMayUpdateLocalGhosts(li) {
+		for _, g := range vc.localGhosts() {
+			ghostHavoc[g] = true // accumulators updated by at-call clauses inside the loop (also in inlined callees)
+		}
+	}
 	defer func() {
 		for _, g := range sortedKeys(ghostHavoc) {
 			if gd, ok := vc.CS.Ghosts[g]; ok {
